@@ -723,6 +723,23 @@ func (fr *frame) order() []*ssa.BasicBlock {
 // mergeStates merges predecessor states under edge conditions.
 func (fr *frame) mergeStates(conds []string, sts []*State) *State {
 	c := fr.c
+	if len(sts) > 1 {
+		// predecessors whose edge condition is literally false do not take part in the merge
+		var cs2 []string
+		var ss2 []*State
+		for i, s := range sts {
+			if i < len(conds) && c.unfold(conds[i]) == "false" {
+				continue
+			}
+			ss2 = append(ss2, s)
+			if i < len(conds) {
+				cs2 = append(cs2, conds[i])
+			}
+		}
+		if len(ss2) >= 1 && len(ss2) < len(sts) {
+			conds, sts = cs2, ss2
+		}
+	}
 	if len(sts) == 1 {
 		return sts[0].clone()
 	}
@@ -1586,6 +1603,11 @@ func (fr *frame) execUnOp(x *ssa.UnOp, st *State) {
 	v := fr.val(x.X)
 	switch x.Op {
 	case token.MUL:
+		if g, ok := x.X.(*ssa.Global); ok && g.Name() == "init$guard" && isPkgInit(fr.fn) {
+			// the package initialiser is analysed for its first (only effective) run
+			fr.vals[x] = Val{T: "false", Ty: x.Type()}
+			return
+		}
 		if v.Local == nil && len(v.Path) == 0 {
 			fr.safety("nil", fmt.Sprintf("(not (= (pobj %s) 0))", v.T), "nil pointer dereference: "+c.prog.sourceLine(c.prog.Fset.Position(x.Pos())), x.Pos())
 		}
@@ -2035,4 +2057,25 @@ func isReturnBlock(b *ssa.BasicBlock) bool {
 	}
 	_, ok := b.Instrs[len(b.Instrs)-1].(*ssa.Return)
 	return ok
+}
+
+// isPkgInit: fn is the synthetic package initialiser (variable initialisers followed by the
+// calls of the init functions).
+func isPkgInit(fn *ssa.Function) bool {
+	return fn != nil && fn.Synthetic == "package initializer"
+}
+
+// isInitCallee: a package initialiser of another package, or one of this package's init functions.
+func isInitCallee(fn *ssa.Function) bool {
+	if fn == nil {
+		return false
+	}
+	if isPkgInit(fn) {
+		return true
+	}
+	n := fn.Name()
+	if strings.HasPrefix(n, "init#") && fn.Parent() == nil {
+		return true
+	}
+	return false
 }
